@@ -223,6 +223,8 @@ type LentImpl struct {
 	ActivateYields int
 	// SelfDoom: the object terminates itself from within Activate
 	SelfDoom bool
+	// SlowMs: echo takes that many simulated milliseconds
+	SlowMs int
 	// RefuseEvery > 0: echo answers one token in RefuseEvery with an error
 	RefuseEvery int
 
@@ -282,6 +284,9 @@ func (l *LentImpl) Terminated() int {
 
 func (l *LentImpl) Echo(tok probe.Token) (probe.Token, error) {
 	n := l.Env.Executed("echo", l.Obj, tokOf(tok).Key(), shortText(tok.Text))
+	if l.SlowMs > 0 {
+		time.Sleep(time.Duration(l.SlowMs) * time.Millisecond)
+	}
 	if LentRefuses(l.RefuseEvery, tok.Seq) {
 		return tok, fmt.Errorf("lent object %d refuses token %d", l.Obj, tok.Seq)
 	}
